@@ -8,11 +8,15 @@
 //!   worker ...                   (hidden) enumerates one shard of one family, in-process decoding
 //!   one                          (hidden) judges the single case given as JSON on stdin
 //!
-//! Workers decode under `catch_unwind` with a silent panic hook.  What `catch_unwind` cannot contain
-//! (allocation failure => abort, a hang) is contained by the process boundary: each worker keeps
-//! "the case I am decoding" and its counters in a file-backed shared array (shm.rs); when a worker
-//! dies or stalls the parent re-creates exactly that input from (family, item, case), reports it as
-//! a finding and restarts the shard right after it.  Workers run with RLIMIT_AS = 2 GiB so that
+//! Workers decode under `catch_unwind` with a silent panic hook (message + location are recorded and
+//! turned into a per-panic-site finding key).  What `catch_unwind` cannot contain (allocation failure
+//! => abort, a hang) is contained by process boundaries: a worker is a supervisor that fork()s the
+//! enumerating child; the child keeps "the case I am inside" and all counters in a file-backed shared
+//! array (shm.rs).  When the child dies inside the codec the supervisor re-creates exactly that input
+//! from (family, item, case) with the same generator, prints it as a finding and forks a child that
+//! resumes right after it; a death outside the codec is a machinery error.  The parent watches the
+//! shared array for a call that makes no progress for 30 s (finding `decode-hang/...`) and enforces
+//! the wall cap (reported as a cap, `exhaustive:false`).  Workers run with RLIMIT_AS = 2 GiB so that
 //! "does a 2^27-element pre-allocation succeed" does not depend on the machine.
 
 mod eval;
@@ -283,10 +287,12 @@ impl Sink for WorkerSink {
             self.shm.add(S_PAD_ONLY_SOME, 1);
         }
     }
+    /// Only reference-vs-implementation disagreements arrive here ("format drift", "reference
+    /// self-check"); the parent drops them when the codec itself fails to round-trip.
     fn machinery(&mut self, msg: String) {
         self.shm.add(S_MACH, 1);
         if self.shm.get(S_MACH) <= 5 {
-            let _ = writeln!(self.out, "{}", json!({"t": "machinery", "msg": msg}));
+            let _ = writeln!(self.out, "{}", json!({"t": "drift", "msg": msg}));
         }
     }
 }
@@ -537,6 +543,7 @@ struct JobResult {
     key_counts: BTreeMap<String, u64>,
     samples: Vec<Value>,
     machinery: Vec<String>,
+    drift: Vec<String>,
     completed: bool,
     cap: Option<String>,
     items_total: u64,
@@ -566,6 +573,7 @@ fn run_job(exe: &std::path::Path, scratch: &str, tier: Tier, family: Family, sha
         key_counts: BTreeMap::new(),
         samples: vec![],
         machinery: vec![],
+        drift: vec![],
         completed: false,
         cap: None,
         items_total: 0,
@@ -674,6 +682,7 @@ fn run_job(exe: &std::path::Path, scratch: &str, tier: Tier, family: Family, sha
                 }
                 Some("sample") => r.samples.push(v.clone()),
                 Some("machinery") => r.machinery.push(v["msg"].as_str().unwrap_or("?").to_string()),
+                Some("drift") => r.drift.push(v["msg"].as_str().unwrap_or("?").to_string()),
                 Some("cap") => r.cap = Some(v["msg"].as_str().unwrap_or("?").to_string()),
                 Some("done") => {
                     done = true;
@@ -886,8 +895,23 @@ fn check_main(id: &str, tier: Tier) -> ! {
             hashes.extend(b.chunks_exact(8).map(|c| u64::from_le_bytes(c.try_into().unwrap())));
         }
     }
-    if total[S_MACH] > 0 && res.machinery_errors.is_empty() {
-        res.machinery_errors.push(format!("{} machinery complaints from workers", total[S_MACH]));
+    // Disagreement between the reference reading and an implementation that round-trips: the wire
+    // format is not the one the reference was written for => no verdict (machinery error).  If the
+    // codec itself fails to round-trip, that failure is the verdict and the disagreement its echo.
+    let roundtrip_broken = key_counts.keys().any(|k| k.starts_with("roundtrip-") || k.starts_with("encode-"));
+    if total[S_MACH] > 0 {
+        if roundtrip_broken {
+            res.cov("reference_disagreements_explained_by_roundtrip_findings", total[S_MACH]);
+        } else {
+            for r in &results {
+                for m in &r.drift {
+                    if res.machinery_errors.len() < 10 {
+                        res.machinery_errors.push(m.clone());
+                    }
+                }
+            }
+            res.machinery_errors.push(format!("{} reference-vs-implementation disagreements in total", total[S_MACH]));
+        }
     }
     hashes.sort_unstable();
     hashes.dedup();
